@@ -38,6 +38,9 @@ def scenarios(tier, seed):
                     sa = it if kind == "other" else cl
                     sc = dict(base, intruder=[{"after_frame": k, "sa": sa, "ptr": 0x92000004, "cmd": 1}], expect_idle=(kind == "other"))
                     out.append(sc)
+                if ai == 0 or tier != "quick":
+                    # the same, delivered with zero latency: processed while the sender of frame k is still inside its send call
+                    out.append(dict(base, intruder=[{"after_frame": k, "sa": it, "ptr": 0x92000004, "cmd": 1, "reentrant": True}]))
                 if tier != "quick" or k % 3 == 0 or ai > 0:
                     out.append(dict(base, intruder=[{"after_frame": k, "sa": it, "ptr": 0x92000003, "cmd": 2},       # same pointer, other requester
                                                     {"after_frame": k + 2, "sa": third, "ptr": 0x92000009, "cmd": 1}]))
